@@ -31,10 +31,18 @@ func Fixture() {
 	(&S{}).Reset() // FIX-MCALL
 }
 
+var AfterFixture = Mock() // D-GLOBAL-AFTER-FIXTURE
+
+type AfterFixtureHolder struct {
+	h Helper // D-FIELD-AFTER-FIXTURE
+}
+
 //«annFixM»
 func (s *S) FixtureMethod() {
 	_ = Mock() // FIXM-CALL
 }
+
+var AfterFixtureMethod = Mock() // D-GLOBAL-AFTER-FIXM
 `
 
 const c03SrcProd = `package d
@@ -90,6 +98,11 @@ func ZZC03Same() {
 		{fd, nd.LineOf(c03SrcD, "FIX-LIT"), "TONL01", nd.And(tH, nd.Not(fix))},
 		{fd, nd.LineOf(c03SrcD, "FIX-MCALL"), "TONL03", nd.And(tM, nd.Not(fix))},
 		{fd, nd.LineOf(c03SrcD, "FIXM-CALL"), "TONL02", nd.And(tF, nd.Not(fixM))},
+		// declarations that merely FOLLOW a @testonly function are not inside it
+		{fd, nd.LineOf(c03SrcD, "D-GLOBAL-AFTER-FIXTURE"), "TONL02", tF},
+		{fd, nd.LineOf(c03SrcD, "D-GLOBAL-AFTER-FIXM"), "TONL02", tF},
+		// first use of Helper in d.go that is not inside Fixture: FIX-LIT if Fixture is not @testonly, else the field below
+		{fd, nd.LineOf(c03SrcD, "D-FIELD-AFTER-FIXTURE"), "TONL01", nd.And(tH, fix)},
 		{fp, nd.LineOf(src, "P-CALL"), "TONL02", nd.And(tF, prod)},
 		{fp, nd.LineOf(src, "P-MCALL"), "TONL03", nd.And(tM, prod)},
 		{fp, nd.LineOf(src, "P-LIT"), "TONL01", nd.And(tH, prod)}, // first use of Helper in this file
